@@ -47,32 +47,32 @@ def l1_groupers(scratch):
     # tag
     for tag in ("RG", "CB"):
         g = RG.AlignmentTagReadGrouper(tag)
-        expect("tag:%s present" % tag, lambda: g.get_group_id(FakeAln("r", {tag: "gA"})), "gA")
-        expect("tag:%s absent" % tag, lambda: g.get_group_id(FakeAln("r", {"XX": "gA"})), "NA")
+        expect("tag:%s present" % tag, lambda: g.get_group_id(FakeAln("r", {tag: "A1"})), "A1")
+        expect("tag:%s absent" % tag, lambda: g.get_group_id(FakeAln("r", {"XX": "A1"})), "NA")
         expect("tag:%s empty" % tag, lambda: g.get_group_id(FakeAln("r", {tag: ""})), "")
-        if "NA" not in g.read_groups or "gA" not in g.read_groups:
+        if "NA" not in g.read_groups or "A1" not in g.read_groups:
             bad.append(("tag:%s universe" % tag, "read_groups=%r lacks observed groups" % (g.read_groups,)))
     # read id
     for delim in ("_", ":", "|"):
         g = RG.ReadIdSplitReadGrouper(delim)
-        expect("read_id:%s one delimiter" % delim, lambda: g.get_group_id(FakeAln("read%sgA" % delim)), "gA")
+        expect("read_id:%s one delimiter" % delim, lambda: g.get_group_id(FakeAln("read%sA1" % delim)), "A1")
         expect("read_id:%s two delimiters" % delim, lambda: g.get_group_id(FakeAln("a%sb%sgB" % (delim, delim))), "gB")
-        expect("read_id:%s no delimiter" % delim, lambda: g.get_group_id(FakeAln("readgA")), "NA")
+        expect("read_id:%s no delimiter" % delim, lambda: g.get_group_id(FakeAln("readA1")), "NA")
         groups_ok = all(isinstance(x, str) for x in g.read_groups)
         if not groups_ok or "NA" not in g.read_groups:
             bad.append(("read_id:%s universe" % delim, "read_groups=%r after a read without delimiter (NA must be a group)" % (g.read_groups,)))
     # table
     tbl = os.path.join(scratch, "groups.tsv")
     with open(tbl, "w") as f:
-        f.write("#read\tgroup\nr1\tgA\nr2\tgB\n\nmalformed_row\nr3\tgA\textra\nr2\tgB\n")
+        f.write("#read\tgroup\nr1\tA1\nr2\tgB\n\nmalformed_row\nr3\tA1\textra\nr2\tgB\n")
     g = RG.ReadTableGrouper(tbl)
-    expect("table hit", lambda: g.get_group_id(FakeAln("r1")), "gA")
+    expect("table hit", lambda: g.get_group_id(FakeAln("r1")), "A1")
     expect("table hit 2", lambda: g.get_group_id(FakeAln("r2")), "gB")
-    expect("table extra column", lambda: g.get_group_id(FakeAln("r3")), "gA")
+    expect("table extra column", lambda: g.get_group_id(FakeAln("r3")), "A1")
     expect("table miss", lambda: g.get_group_id(FakeAln("zz")), "NA")
     expect("table malformed row", lambda: g.get_group_id(FakeAln("malformed_row")), "NA")
     with open(tbl, "w") as f:
-        f.write("gA;r1\ngB;r2\n")
+        f.write("A1;r1\ngB;r2\n")
     g = RG.ReadTableGrouper(tbl, 1, 0, ";")
     expect("table custom columns", lambda: g.get_group_id(FakeAln("r2")), "gB")
     # file name
@@ -190,9 +190,9 @@ def l3_world(mode):
     w["genes"].append(W.locus_gene("G1", "chr1", "+", 1000, {"T1": [0, 1, 2, 3], "T2": [0, 2, 3]}))
     w["genes"].append(W.locus_gene("G2", "chr2", "-", 1000, {"T4": [0, 1, 2]}))
     syn.plant_for_transcripts(w)
-    plan = [("T1", "chr1", [0, 1, 2, 3], "+", "gA"), ("T1", "chr1", [0, 1, 2, 3], "+", "gB"), ("T1", "chr1", [0, 1, 2, 3], "+", None),
+    plan = [("T1", "chr1", [0, 1, 2, 3], "+", "A1"), ("T1", "chr1", [0, 1, 2, 3], "+", "gB"), ("T1", "chr1", [0, 1, 2, 3], "+", None),
             ("T2", "chr1", [0, 2, 3], "+", "gB"), ("T2", "chr1", [0, 2, 3], "+", "gC"), ("T2", "chr1", [0, 2, 3], "+", "gC"),
-            ("T4", "chr2", [0, 1, 2], "-", "gA"), ("T4", "chr2", [0, 1, 2], "-", "gA"), ("T4", "chr2", [0, 1, 2], "-", None)]
+            ("T4", "chr2", [0, 1, 2], "-", "A1"), ("T4", "chr2", [0, 1, 2], "-", "A1"), ("T4", "chr2", [0, 1, 2], "-", None)]
     reads = []
     groups = {}
     iso = {}
@@ -238,8 +238,8 @@ def l3_case(args):
             "--genedb", paths["gtf"], "--complete_genedb", "--counts_format", fmt, "--no_model_construction"]
     if mode == "file_name":
         seqs = syn.genome_sequences(w)
-        r1 = [r for r in w["reads"] if groups[r["name"]] in ("gA", "NA")]
-        r2 = [r for r in w["reads"] if groups[r["name"]] not in ("gA", "NA")]
+        r1 = [r for r in w["reads"] if groups[r["name"]] in ("A1", "NA")]
+        r2 = [r for r in w["reads"] if groups[r["name"]] not in ("A1", "NA")]
         b1 = syn.write_bam(w, os.path.join(d, "one.bam"), reads=r1, seqs=seqs)
         b2 = syn.write_bam(w, os.path.join(d, "two.bam"), reads=r2, seqs=seqs)
         argv += ["--bam", b1, b2, "--labels", "L1", "L2", "--read_group", "file_name"]
@@ -331,7 +331,7 @@ def run(ctx):
     for desc, msg in bad1:
         ctx.violation("l1:" + desc, "%s: %s" % (desc, msg), {"case": desc})
     ctx.note("L1 grouper cases: %d" % n1)
-    groups = ["gA", "gB", "NA"]
+    groups = ["A1", "gB", "NA"]
     kinds = ["u1", "u2", "amb", "none"]
     read_alpha = [(k, g) for k in kinds for g in groups]
     cases = []
@@ -355,7 +355,7 @@ def run(ctx):
             ctx.violation("l2:%s:%s" % (kind, level), "reads %s, group order %s, format %s: %s" % (list(reads), list(order), fmt, msg),
                           {"reads": list(reads), "order": list(order), "format": fmt})
     jobs = []
-    universes = {"tag": ["gA", "gB", "gC", "NA"], "read_id": ["gA", "gB", "gC", "NA"], "file": ["gA", "gB", "gC", "NA"], "file_name": ["L1", "L2"]}
+    universes = {"tag": ["A1", "gB", "gC", "NA"], "read_id": ["A1", "gB", "gC", "NA"], "file": ["A1", "gB", "gC", "NA"], "file_name": ["L1", "L2"]}
     for mode in ("tag", "read_id", "file", "file_name"):
         for fmt in ("both",) if quick else ("matrix", "linear", "both"):
             orders = list(itertools.permutations(universes[mode]))
